@@ -8,6 +8,7 @@ import Ww.Driver.C02
 import Ww.Driver.C03
 import Ww.Driver.C13
 import Ww.Driver.Cook
+import Ww.Driver.Sched
 open Ww.Driver
 
 def dispatch (l : Line) : List Verdict :=
@@ -35,6 +36,7 @@ def dispatch (l : Line) : List Verdict :=
   | "retrychain" => handleRetryChain l
   | "retryreset" => handleRetryReset l
   | "ratelimit" => handleRateLimit l
+  | "sched" => handleSched l
   | k => [Verdict.bad s!"unknown kind {k}"]
 
 partial def loop (h : IO.FS.Stream) (out : IO.FS.Stream) (i : Nat) : IO Unit := do
